@@ -10,6 +10,7 @@
 // that operation is `ub:oob`, the remaining operations of the case are `dead`, and a new worker is
 // forked for the next case.  So an out-of-bounds memcpy of the real code is observed, not predicted.
 #include <bits/stdc++.h>
+#include <sanitizer/common_interface_defs.h>
 #include <fcntl.h>
 #include <sys/wait.h>
 #include <unistd.h>
@@ -26,7 +27,9 @@ using vh::Case;
 typedef unsigned long long ull;
 
 // keep the process small (the worker is forked from it); options given in ASAN_OPTIONS still win
-extern "C" const char *__asan_default_options() { return "quarantine_size_mb=8:detect_leaks=0"; }
+// and the sanitizer reports of a dying worker cheap (no symbolizer start-up per report)
+extern "C" const char *__asan_default_options() { return "quarantine_size_mb=8:detect_leaks=0:symbolize=0"; }
+extern "C" const char *__ubsan_default_options() { return "symbolize=0"; }
 
 static const uint64_t kTop = ~0ull;
 
@@ -93,6 +96,8 @@ struct StreamsHarness : vh::Harness {
   bool is_worker = false;
   pid_t wpid = -1;
   FILE *w_to = nullptr, *w_from = nullptr;
+  const Case *cur_case = nullptr;  // for the death callback: the case and the op being executed
+  size_t cur_op = 0;
   std::vector<std::string> pre;   // results computed by the worker for the current case
   size_t pre_i = 0;
   bool use_pre = false;
@@ -115,8 +120,21 @@ struct StreamsHarness : vh::Harness {
     use_pre = false;
   }
 
+  // once this many operations have ended in `ub:oob` the property is violated beyond doubt: the remaining
+  // memory-stream cases that seek beyond 2^63 are not run any more (each costs a sanitizer report + fork)
+  uint64_t ub_cap = 150, n_skipped = 0;
+  bool skip_case(const Case &c) const {
+    if (n_ub < ub_cap || c.ops.empty() || c.kind == "replay") return false;
+    if (c.ops[0].compare(0, 8, "open mem") != 0) return false;
+    for (auto &o : c.ops)
+      if (o.size() >= 24 && o.compare(0, 5, "seek ") == 0) return true;
+    return false;
+  }
+
   void begin_case(const Case &c) override {
     reset_case();
+    cur_case = &c;
+    cur_op = 0;
     if (is_worker || c.ops.empty()) return;
     auto w0 = vh::split_ws(c.ops[0]);
     if (w0.size() == 3 && w0[0] == "open" && (w0[1] == "memstr" || w0[1] == "memfixed")) {
@@ -337,6 +355,7 @@ struct StreamsHarness : vh::Harness {
   }
 
   std::string exec(const std::vector<std::string> &w) override {
+    ++cur_op;
     if (use_pre) return pre_i < pre.size() ? pre[pre_i++] : "bad-op";
     if (w.empty()) return "bad-op";
     if (kind == kNone) {
@@ -626,6 +645,21 @@ struct StreamsHarness : vh::Harness {
   }
 };
 
+// If a sanitizer kills the harness itself (an adaptor case: those run in-process), complete the record of
+// the case being executed in ops.txt, so that the check reports exactly that case as the replay.
+static vh::Runner *g_R = nullptr;
+static StreamsHarness *g_H = nullptr;
+static void on_sanitizer_death() {
+  if (!g_R || !g_H || g_H->is_worker || !g_H->cur_case || !g_R->f_ops) return;
+  const Case &c = *g_H->cur_case;
+  for (size_t i = g_H->cur_op ? g_H->cur_op - 1 : 0; i < c.ops.size(); ++i) {
+    fputs(c.ops[i].c_str(), g_R->f_ops);
+    fputc('\n', g_R->f_ops);
+  }
+  fflush(g_R->f_ops);
+  if (g_R->f_impl) fflush(g_R->f_impl);
+}
+
 // ------------------------------------------------------------------------------------------------
 // generators
 // ------------------------------------------------------------------------------------------------
@@ -663,6 +697,9 @@ int main(int argc, char **argv) {
   StreamsHarness H;
   H.out_dir = R.out_dir;
   R.h = &H;
+  g_R = &R;
+  g_H = &H;
+  __sanitizer_set_death_callback(on_sanitizer_death);
   if (H.str_max != 4611686018427387903ull) {
     fprintf(stderr, "std::string::max_size() = %llu differs from the model constant strMax\n", (ull)H.str_max);
     return 3;
@@ -670,6 +707,7 @@ int main(int argc, char **argv) {
   auto done = [&]() {
     H.reap_worker();
     R.extra["worker_processes"] = H.n_forks;
+    R.extra["cases_skipped_after_ub_cap"] = H.n_skipped;
     R.extra["ub_outcomes"] = H.n_ub;
     R.finish();
     if (!H.path.empty()) remove(H.path.c_str());
@@ -678,8 +716,31 @@ int main(int argc, char **argv) {
   if (R.run_replay()) return done();
   vh::Rng rng(R.seed);
   const bool T = R.thorough();
+  if (T) H.ub_cap = 600;
+  auto run = [&](const Case &c) {
+    if (H.skip_case(c)) { ++H.n_skipped; return; }
+    R.run_case(c);
+  };
   const uint64_t P63 = 1ull << 63;
 
+  // ---- (0) corpus: the canonical histories of the findings C19-F1..F3 and a few plain ones --------------
+  {
+    const char *corpus[][6] = {
+        {"open memfixed 30313233", "seek 2", "read 5", "tell", "dump", nullptr},
+        {"open memfixed 30313233", "seek 18446744073709551614", "write 01020304", "dump", nullptr, nullptr},
+        {"open memstr 414243", "seek 18446744073709551614", "write 626364", "dump", nullptr, nullptr},
+        {"open memfixed 30313233", "seek 5", "read 18446744073709551615", "dump", nullptr, nullptr},
+        {"open memstr -", "write 616263", "seek 1", "read 5", "dump", nullptr},
+        {"open file 4142", "seek 4", "write 7a", "close", "dump", nullptr},
+    };
+    for (auto &row : corpus) {
+      Case c;
+      c.kind = "corpus";
+      for (const char *op : row)
+        if (op) c.ops.push_back(op);
+      run(c);
+    }
+  }
   // ---- (1) the three stores: exhaustive short histories ------------------------------------------
   struct Cfg { const char *open; size_t len; };
   const std::vector<Cfg> cfgs = {{"open memstr -", 0},          {"open memstr 414243", 3},  {"open memfixed 30313233", 4},
@@ -698,8 +759,7 @@ int main(int argc, char **argv) {
     std::sort(full.begin(), full.end());
     full.erase(std::unique(full.begin(), full.end()), full.end());
     const bool primary = ci == 0 || ci == 2 || ci == 5;
-    size_t depth = T ? (primary ? 5 : 4) : (primary ? 4 : 3);
-    if (file && depth > 4) depth = 4;
+    size_t depth = T ? 4 : 3;
     sequences(full, depth, [&](const std::vector<std::string> &ops) {
       Case c;
       c.kind = std::string(cf.open + 5, strcspn(cf.open + 5, " ")) + " exhaustive";
@@ -707,21 +767,21 @@ int main(int argc, char **argv) {
       for (auto &o : ops) c.ops.push_back(o);
       if (file) c.ops.push_back("close");
       c.ops.push_back("dump");
-      R.run_case(c);
+      run(c);
     });
     // deeper over a small alphabet
     if (primary) {
       std::vector<std::string> small = {"read 2", "write 6162", "seek 1", "seek 3", file ? "seek " + U(P63) : "seek " + U(kTop)};
       if (!file) small.push_back("write 7a");
-      sequences(small, T ? 7 : 6, [&](const std::vector<std::string> &ops) {
-        if (ops.size() < 5) return;
+      sequences(small, T ? 6 : 5, [&](const std::vector<std::string> &ops) {
+        if (ops.size() < 4) return;
         Case c;
         c.kind = std::string(cf.open + 5, strcspn(cf.open + 5, " ")) + " exhaustive-deep";
         c.ops.push_back(cf.open);
         for (auto &o : ops) c.ops.push_back(o);
         if (file) c.ops.push_back("close");
         c.ops.push_back("dump");
-        R.run_case(c);
+        run(c);
       });
     }
   }
@@ -772,7 +832,7 @@ int main(int argc, char **argv) {
       }
       if (k == 2) c.ops.push_back("close");
       c.ops.push_back("dump");
-      R.run_case(c);
+      run(c);
     }
   }
   // ---- (3) dmlc::ostream ---------------------------------------------------------------------------
@@ -791,7 +851,7 @@ int main(int argc, char **argv) {
       alpha.push_back("write " + vh::hex(s) + (tag % 2 ? " s" : " w"));
       ++tag;
     }
-    size_t depth = T ? 4 : 3;
+    size_t depth = T ? (b <= 3 ? 4 : 3) : ((b <= 4 || b == 17) ? 3 : 2);
     if (b == 1024) depth = T ? 3 : 2;
     sequences(alpha, depth, [&](const std::vector<std::string> &ops) {
       Case c;
@@ -800,7 +860,7 @@ int main(int argc, char **argv) {
       for (auto &o : ops) c.ops.push_back(o);
       c.ops.push_back("destroy");
       c.ops.push_back("udump");
-      R.run_case(c);
+      run(c);
     });
     size_t nr = T ? 60 : 12;
     for (size_t it = 0; it < nr; ++it) {
@@ -824,7 +884,7 @@ int main(int argc, char **argv) {
       }
       if (rng.chance(3, 4)) c.ops.push_back("destroy");
       c.ops.push_back("udump");
-      R.run_case(c);
+      run(c);
     }
   }
   // ---- (4) dmlc::istream ---------------------------------------------------------------------------
@@ -838,7 +898,8 @@ int main(int argc, char **argv) {
       std::string data;
       for (size_t i = 0; i < dl; ++i) data.push_back(static_cast<char>(i % 7 == 3 ? 0xff : 'a' + i % 26));
       alpha.back() = "useek " + U(dl);
-      size_t depth = T ? 4 : 3;
+      const bool edge = dl == cap + 1 || dl == 2 * cap + 1;
+      size_t depth = T ? ((b <= 3 && edge) ? 4 : 3) : (((b <= 3 || b == 5) && edge) ? 3 : 2);
       if (b == 1024) depth = 2;
       sequences(alpha, depth, [&](const std::vector<std::string> &ops) {
         Case c;
@@ -847,7 +908,7 @@ int main(int argc, char **argv) {
         for (auto &o : ops) c.ops.push_back(o);
         c.ops.push_back("read 5000 r");
         c.ops.push_back("get i");
-        R.run_case(c);
+        run(c);
       });
     }
     size_t nr = T ? 60 : 12;
@@ -870,7 +931,7 @@ int main(int argc, char **argv) {
       }
       c.ops.push_back("read 100000 r");
       c.ops.push_back("get i");
-      R.run_case(c);
+      run(c);
     }
   }
   return done();
